@@ -166,7 +166,7 @@ CHECKS = {
             R("TestC10Shim", 400, 1500, qs=2),
             E("TestC10ConstructFaults"),
             E("TestC10LongLived", thorough={"shards": 1, "timeout": 600}),
-            E("TestC10LostReplies"),
+            E("TestC10LostReplies"), E("TestC10HeldTwice"),
         ],
     },
     "C11": {
@@ -206,7 +206,7 @@ CHECKS = {
             E("TestC12Sizes"),
             R("TestC12Stream", 5000, 50000),
             R("TestC12StreamReal", 300, 2000, ts=8),
-            R("TestC12Sessions", 400, 4000, ts=8),
+            R("TestC12Sessions",400,4000,ts=8), E("TestC12Relabel"),
             R("TestC12OwnerClose", 300, 3000, ts=8),
             R("TestC12LocalSlots", 60, 600, ts=4),
             E("TestC12SlowHandler"),
@@ -346,7 +346,7 @@ CHECKS = {
             R("TestC20Wait", 200, 2000, qs=2, quick_extra={"timeout": 300}),
             R("TestC20Blackbox", 12, 120, qs=4, ts=8, quick_extra={"timeout": 300}),
             R("TestC20Concurrent", 8, 60, qs=4, ts=8, quick_extra={"timeout": 300}),
-            E("TestC20Construct"), E("TestC20UpstreamBroken"), E("TestC20Rewait"), E("TestC20BusyUpstream", quick={"shards": 1, "timeout": 300}, thorough={"shards": 1, "timeout": 600}),
+            E("TestC20Construct"), E("TestC20UpstreamBroken"), E("TestC20Rewait"), E("TestC20WarmWait"), E("TestC20BusyUpstream", quick={"shards": 1, "timeout": 300}, thorough={"shards": 1, "timeout": 600}),
         ],
     },
 }
